@@ -1,14 +1,14 @@
 """C10 - union / intersection / difference compute the mathematical result."""
 from props import _generic as g
 
-INPLACE = ["set_ior", "set_isub", "set_iand", "set_ixor", "TreeSet_ior", "TreeSet_isub", "TreeSet_iand", "TreeSet_ixor",
-           "set_operation", "initSetIteration", "bucket_sub", "bucket_or", "bucket_and", "Generic_set_xor",
-           "set_isdisjoint", "TreeSet_isdisjoint"]
+# every function of the set algebra that touches a node's vectors (whichever do, on the tree under test)
+SETALG = (r"^(set_i|TreeSet_i|set_op|Set_isdisjoint|TreeSet_isdisjoint|bucket_sub|bucket_or|bucket_and|Generic_set_xor|"
+          r"initSetIteration|next(Bucket|Set|BTreeItems|TreeSetItems)|copyRemaining|merge_output|set_item|_Set_update|_TreeSet_update)")
 
 
 def run(ctx):
     fns = g.run_pyvc(ctx, "C10")
-    ctx.cvc(["II"] if ctx.tier == "quick" else ["II", "OO", "fs"], ["T-USE"], functions=INPLACE)
+    ctx.cvc(["II"] if ctx.tier == "quick" else ["II", "OO", "fs"], ["T-USE"], match=SETALG)
     ctx.standin("setop_rt", families=tuple("OO,II".split(",")))
     return "proof", (
         "Engine P: union, intersection and difference of _base.py are proved from their real bodies against the mathematical "
